@@ -410,7 +410,9 @@ def run(ctx, rep) -> None:
     # budget runs out it fails a correctly running stage.
     rep.rule("C05.R10", "in StartStageHandler.handle the wait-budget branch (re-queue with retry_count + 1 / TERMINAL after max_stage_wait_retries) is reached only for a stage that is still NOT_STARTED")
     hs_ = prog.func("stabilize.handlers.start_stage.handler", "StartStageHandler.handle.on_stage")
-    budget = [n_ for n_ in ast.walk(hs_.node) if isinstance(n_, ast.Call) and ((norm(n_.func) == "self.set_stage_status" and "TERMINAL" in norm(n_)) or (norm(n_.func) == "StartStage" and any(k_.arg == "retry_count" for k_ in n_.keywords)))]
+    # the wait-budget actions are those taken for the `stage` the readiness was computed for (not the error branch's re-read copy)
+    budget = [n_ for n_ in ast.walk(hs_.node) if isinstance(n_, ast.Call) and ((norm(n_.func) == "self.set_stage_status" and "TERMINAL" in norm(n_) and n_.args and norm(n_.args[0]) == "stage")
+                                                                               or (norm(n_.func) == "StartStage" and any(k_.arg == "retry_count" for k_ in n_.keywords)))]
     rep.floor("wait-budget actions in StartStage.handle", len(budget), 2)
     for n_ in budget:
         facts = _cond_at(hs_.node, n_)
